@@ -130,7 +130,7 @@ impl<P: Body + RefUnwindSafe> Case for CaseImpl<P> {
         let verdict = match r {
             Ok(()) => Verdict::Pass,
             Err(m) if m.contains("simulation assumption failed") => Verdict::Assume,
-            Err(m) => Verdict::Panic(m),
+            Err(m) => Verdict::Panic(format!("{m} [at {}]", super::util::last_panic_location())),
         };
         Run { log: String::from_utf8_lossy(&log).into_owned(), trace, verdict }
     }
@@ -150,7 +150,7 @@ impl<P: Body + RefUnwindSafe> Case for CaseImpl<P> {
             Ok(n) => (traces, n, None),
             Err(e) => {
                 let n = traces.len();
-                (traces, n, Some(e))
+                (traces, n, Some(format!("{e} [at {}]", super::util::last_panic_location())))
             }
         }
     }
